@@ -533,7 +533,8 @@ def run_cfg(chk, facts, cfg):
                     sx, paths = summ(f, ['self', 'confidence'], [by_ref(st_mv), cm.value(kind, L)])
                     chk.saw(facts, f, paths=len(paths))
                     okk = check_mean_interval(chk, PID, key, where, sm, im, cm, paths, kind, L, d_ref, se_ref, nu_ref, dmu,
-                                              'Unpaired::ci_mean(%s) is (ma - mb) -/+ c*sqrt(va/na + vb/nb) with the documented effective dof (%s)' % (kname, region))
+                                              'Unpaired::ci_mean(%s) is (ma - mb) -/+ c*sqrt(va/na + vb/nb) with the documented effective dof (%s)' % (kname, region),
+                                              stat_atoms=[(Ma, 'ma'), (Va, 'va'), (Mb, 'mb'), (Vb, 'vb')])
                     if okk:
                         results[kind] = paths
                 except (Unsupported, NotReal) as e:
